@@ -82,3 +82,10 @@ Definition corr_zcontext (c : limits * zip_oracle * list zop * list event) : boo
   let '(L, o, ops, want) := c in evs_eqb (zrun L 0%N Unopened (OpInit o :: ops)) want.
 
 Definition corr_trace (t : list event) : bool := trace_ok t.
+
+(* entries with names and attributes: the model decides "directory" from the name alone *)
+From S2T Require Import Lib.PyStr C11.ModelNames.
+Definition mkR (n : str) (fs cs attr sys : Z) : raw_entry :=
+  {| r_name := n; r_file_size := fs; r_compress_size := cs; r_external_attr := attr; r_create_system := sys |}.
+Definition corr_validate_raw (c : limits * list raw_entry * Z) : bool :=
+  let '(L, rs, want) := c in code_of (validate_raw L rs) =? want.
